@@ -320,8 +320,8 @@ class CaseRunner:
             r = None
             # programming errors no contract ever licenses are reported whatever flags a case asks for
             r = flags_sig(o, tuple(flag_kinds or ()) + ("unbound-name", "bad-isinstance", "bad-hash"))
-            if False:
-                r = flags_sig(o, flag_kinds)
+            if o.kind == "setup-verdict":
+                r = o.verdict
             if r is None:
                 try:
                     r = judge(o)
